@@ -35,6 +35,35 @@ NONEMPTY_TEXT = {'id', 'function_name', 'charset'}
 NUMBER_SYMS = {'integer': 'int', 'float': 'float'}
 
 
+SYNTHESISED_KINDS = ('ID', 'FLOAT', 'INTEGER', 'DQUOTE_STRING', 'QUOTE_STRING')     # make_suggestion names these; checked by C02.synthetic.*
+
+
+def _assigns_token_value(f):
+    """does the lexer token function store into t.value (then the grammar sees something else than the matched text)"""
+    import inspect, textwrap
+    try:
+        tree = ast.parse(textwrap.dedent(inspect.getsource(f)))
+    except Exception:
+        return True
+    fd = next((n for n in ast.walk(tree) if isinstance(n, ast.FunctionDef)), None)
+    if fd is None or len(fd.args.args) < 2:
+        return True
+    tname = fd.args.args[1].arg
+    for n in ast.walk(fd):
+        tg = []
+        if isinstance(n, ast.Assign):
+            tg = n.targets
+        elif isinstance(n, (ast.AugAssign, ast.AnnAssign)):
+            tg = [n.target]
+        for t_ in tg:
+            for x in ast.walk(t_):
+                if isinstance(x, ast.Attribute) and x.attr == 'value' and isinstance(x.value, ast.Name) and x.value.id == tname:
+                    return True
+        if isinstance(n, ast.Call) and isinstance(n.func, ast.Name) and n.func.id == 'setattr':
+            return True
+    return False
+
+
 def value_for(ex, sym, i, d):
     """symbolic value of a right-hand side symbol under its type contract"""
     from mindsdb_sql.parser import ast as mast
@@ -57,6 +86,15 @@ def value_for(ex, sym, i, d):
                 alt = z3.Union(z3.Re(z3.StringVal(ch.lower())), z3.Re(z3.StringVal(ch.upper()))) if ch.lower() != ch.upper() else z3.Re(z3.StringVal(ch))
                 rx = alt if rx is None else z3.Concat(rx, alt)
             ex.assume(z3.InRe(v.t, rx))
+        elif pat is not None and not isinstance(dict(d.Lexer._rules).get(sym), str) and sym not in SYNTHESISED_KINDS \
+                and sym in getattr(d.Lexer, '_token_funcs', {}) and not _assigns_token_value(d.Lexer._token_funcs[sym]):
+            # a token whose rule is a function that hands the matched text over unchanged, and that the suggestion builder never makes up
+            # (it only synthesises tokens whose rule is a plain string, and the five kinds it names): the value is a word of the rule's pattern(s)
+            from vlib import rez3
+            try:
+                ex.assume(z3.InRe(v.t, rez3.to_z3(pat, getattr(d.Lexer, 'reflags', 0))))
+            except rez3.RegexOutside:
+                pass
         return v
     if sym in DICT_SYMS:
         return SymDictU(f'{sym}@{i}', lambda e, l: pysym.mk_str(l), lambda e, l: SymObj(None, l, prov='param'), prov='param')
@@ -250,6 +288,7 @@ def action_verdict(d, K, fd, rule):
             return f'raises {o.value.__name__} at {getattr(o.exc, "origin", "?")}'
         return None
     ex = pysym.Executor(max_paths=1500)
+    ex.exact_strip = True          # str.strip / lstrip / rstrip with a constant argument are modelled exactly (prefix / suffix decomposition)
     ex.atoms = {}          # regex matches / word-set membership / str predicates on symbolic strings are opaque facts: both outcomes are explored
     v = pysym.verify(K.__module__, None, make_args, post, ex=ex, node=fd)
     if v.status == PROVED and getattr(v, 'returns', 1) == 0 and any(isinstance(n, ast.Return) for n in ast.walk(fd)):
